@@ -35,6 +35,9 @@ def _weights(cin):
     idx = _year_index(cin["y"], cin["tz"])
     key = ("w", cin["type"], cin["y"], cin["tz"])
     if key not in _st["cache"]:
+        # a decoy first: the same UTC window as seen from a zone nine hours away (data pulled for one UTC window and converted per
+        # site) is segmented just before, in this process - the weights of an index are those of ITS OWN local months
+        _st["seg"](idx.tz_convert("Asia/Tokyo" if cin["tz"] != "Asia/Tokyo" else "America/Chicago"), cin["type"])
         _st["cache"][key] = _st["seg"](idx, cin["type"])
     w = _st["cache"][key]
     out = {"res": "ok", "nd": 0, "w2": [], "colsOk": list(w.columns) == SEG_ORDER[cin["type"]] and w.index.equals(idx)}
